@@ -187,6 +187,8 @@ def locale_pass(st, tier, part):
         o, after_utf8, tree = c03.run_project(tmp, pat, label, old, new, "bumpver.toml", lid, "locale", [f], [("a.txt", [fp.raw for fp in f.patterns])], False,
                                               want=("bytes",), prefix="C04")
         st.merge(tmp)
+        if o is None:
+            continue
         world.clear_dir(".")
         world.write_tree(tree)
         mt = os.stat("bystander.txt").st_mtime_ns
